@@ -1,6 +1,7 @@
 package chainprops
 
 import (
+	"encoding/json"
 	"verif/core"
 	"verif/props/chain"
 )
@@ -41,15 +42,39 @@ func c02Scenarios(tier core.Tier) []scenario {
 	}
 }
 
+func shapeLen(t core.Tier) int {
+	if t == core.Thorough {
+		return 3
+	}
+	return 2
+}
+
+// withShapes routes replay files of the shape grid to it.
+func withShapes(which string, f func(json.RawMessage) (bool, string, error)) func(json.RawMessage) (bool, string, error) {
+	return func(c json.RawMessage) (bool, string, error) {
+		var sc shapeCase
+		if json.Unmarshal(c, &sc) == nil && len(sc.ShapeGrid) > 0 {
+			return replayShape(sc, which)
+		}
+		return f(c)
+	}
+}
+
 func init() {
 	core.Register(&core.Check{ID: "C01", Run: func(t core.Tier) *core.Report {
 		rep := core.NewReport("C01", t, "model_checking")
 		runScenarios(rep, c01Scenarios(t))
+		if !rep.HitDeadline() {
+			shapeGrid(rep, "C01", shapeLen(t))
+		}
 		return rep
-	}, Replay: replayScenario(append(c01Scenarios(core.Quick), c01Scenarios(core.Thorough)...))})
+	}, Replay: withShapes("C01", replayScenario(append(c01Scenarios(core.Quick), c01Scenarios(core.Thorough)...)))})
 	core.Register(&core.Check{ID: "C02", Run: func(t core.Tier) *core.Report {
 		rep := core.NewReport("C02", t, "model_checking")
 		runScenarios(rep, c02Scenarios(t))
+		if !rep.HitDeadline() {
+			shapeGrid(rep, "C02", shapeLen(t))
+		}
 		return rep
-	}, Replay: replayScenario(append(c02Scenarios(core.Quick), c02Scenarios(core.Thorough)...))})
+	}, Replay: withShapes("C02", replayScenario(append(c02Scenarios(core.Quick), c02Scenarios(core.Thorough)...)))})
 }
